@@ -24,36 +24,47 @@
 #include <errno.h>
 
 #ifdef VP_CBMC
+/* Loops over strings additionally stop at the end of the object the pointer
+ * points into: for a pointer to one known object that bound is a constant, so
+ * symbolic execution stops unrolling there instead of at the global --unwind
+ * limit.  Running into the bound means the string is not NUL-terminated inside
+ * its object, which is reported as a property violation (a real strlen would
+ * read out of bounds). */
+#define VP_STR_ROOM(s) (__CPROVER_OBJECT_SIZE(s) - __CPROVER_POINTER_OFFSET(s))
+#define VP_STR_TERMINATED(cond) __CPROVER_assert(cond, "http_fmt: string is NUL-terminated inside its object")
 /* ---- string.h ----------------------------------------------------------- */
 size_t strlen(const char *s)
 {
-	size_t n = 0;
-	while (s[n] != '\0')
+	size_t n = 0, room = VP_STR_ROOM(s);
+	while (n < room && s[n] != '\0')
 		n++;
+	VP_STR_TERMINATED(n < room);
 	return n;
 }
 char *strchr(const char *s, int c)
 {
-	size_t i = 0;
-	for (;;) {
+	size_t i = 0, room = VP_STR_ROOM(s);
+	for (; i < room; i++) {
 		if (s[i] == (char)c)
 			return (char *)s + i;
 		if (s[i] == '\0')
 			return (char *)0;
-		i++;
 	}
+	VP_STR_TERMINATED(0);
+	return (char *)0;
 }
 char *strrchr(const char *s, int c)
 {
 	const char *last = (const char *)0;
-	size_t i = 0;
-	for (;;) {
+	size_t i = 0, room = VP_STR_ROOM(s);
+	for (; i < room; i++) {
 		if (s[i] == (char)c)
 			last = s + i;
 		if (s[i] == '\0')
 			return (char *)last;
-		i++;
 	}
+	VP_STR_TERMINATED(0);
+	return (char *)last;
 }
 static int vp_in_set(char ch, const char *set)
 {
@@ -65,45 +76,50 @@ static int vp_in_set(char ch, const char *set)
 }
 char *strpbrk(const char *s, const char *accept)
 {
-	size_t i;
-	for (i = 0; s[i] != '\0'; i++)
+	size_t i, room = VP_STR_ROOM(s);
+	for (i = 0; i < room && s[i] != '\0'; i++)
 		if (vp_in_set(s[i], accept))
 			return (char *)s + i;
+	VP_STR_TERMINATED(i < room);
 	return (char *)0;
 }
 size_t strspn(const char *s, const char *accept)
 {
-	size_t i = 0;
-	while (s[i] != '\0' && vp_in_set(s[i], accept))
+	size_t i = 0, room = VP_STR_ROOM(s);
+	while (i < room && s[i] != '\0' && vp_in_set(s[i], accept))
 		i++;
+	VP_STR_TERMINATED(i < room);
 	return i;
 }
 int strcmp(const char *a, const char *b)
 {
-	size_t i = 0;
-	for (;;) {
+	size_t i = 0, room = VP_STR_ROOM(a);
+	for (; i < room; i++) {
 		unsigned char ca = (unsigned char)a[i], cb = (unsigned char)b[i];
 		if (ca != cb)
 			return ca < cb ? -1 : 1;
 		if (ca == 0)
 			return 0;
-		i++;
 	}
+	VP_STR_TERMINATED(0);
+	return 0;
 }
 /* POSIX strsep: token ends at the first byte of *sp that is in delim */
 char *strsep(char **sp, const char *delim)
 {
 	char *begin = *sp;
-	size_t i;
+	size_t i, room;
 	if (begin == (char *)0)
 		return (char *)0;
-	for (i = 0; begin[i] != '\0'; i++) {
+	room = VP_STR_ROOM(begin);
+	for (i = 0; i < room && begin[i] != '\0'; i++) {
 		if (vp_in_set(begin[i], delim)) {
 			begin[i] = '\0';
 			*sp = begin + i + 1;
 			return begin;
 		}
 	}
+	VP_STR_TERMINATED(i < room);
 	*sp = (char *)0;
 	return begin;
 }
@@ -169,11 +185,11 @@ static int vp_digit_val(char ch)
  * *endptr = nptr and result 0. */
 long long strtoll(const char *nptr, char **endptr, int base)
 {
-	size_t i = 0;
+	size_t i = 0, room = VP_STR_ROOM(nptr);
 	int neg = 0, any = 0, over = 0;
 	unsigned long long acc = 0, lim;
 	__CPROVER_assert(base == 10 || base == 16, "http_fmt: strtoll model only covers base 10 and 16");
-	while (nptr[i] == ' ' || (nptr[i] >= 9 && nptr[i] <= 13))
+	while (i < room && (nptr[i] == ' ' || (nptr[i] >= 9 && nptr[i] <= 13)))
 		i++;
 	if (nptr[i] == '+' || nptr[i] == '-') {
 		neg = nptr[i] == '-';
@@ -183,7 +199,7 @@ long long strtoll(const char *nptr, char **endptr, int base)
 	    vp_digit_val(nptr[i + 2]) < 16)
 		i += 2;
 	lim = neg ? (unsigned long long)LLONG_MAX + 1ULL : (unsigned long long)LLONG_MAX;
-	for (;;) {
+	for (; i < room;) {
 		int d = vp_digit_val(nptr[i]);
 		if (d >= base)
 			break;
@@ -197,6 +213,7 @@ long long strtoll(const char *nptr, char **endptr, int base)
 		}
 		i++;
 	}
+	VP_STR_TERMINATED(i < room);
 	if (endptr)
 		*endptr = (char *)(any ? nptr + i : nptr);
 	if (!any)
@@ -314,10 +331,12 @@ int vsnprintf(char *buf, size_t size, const char *fmt, va_list ap)
 			pos = vp_fmt_putc(buf, size, pos, (char)va_arg(ap, int));
 		} else if (ch == 's') {
 			const char *s = va_arg(ap, const char *);
-			size_t k;
+			size_t k, room;
 			if (s == (const char *)0) s = "(null)";
-			for (k = 0; s[k] != '\0'; k++)
+			room = VP_STR_ROOM(s);
+			for (k = 0; k < room && s[k] != '\0'; k++)
 				pos = vp_fmt_putc(buf, size, pos, s[k]);
+			VP_STR_TERMINATED(k < room);
 		} else if (ch == 'd') {
 			long long v = lng ? va_arg(ap, long) : (long long)va_arg(ap, int);
 			unsigned long long u = v < 0 ? 0ULL - (unsigned long long)v : (unsigned long long)v;
